@@ -337,6 +337,211 @@ fn explore_enum(prop: &str, idx: usize, e: &Entry, maxlen: usize, t: &mut Tally)
     }
 }
 
+// ------------------------------------------------------------------ C08: attribute selection
+
+fn element_attrs(t: Trait, di: &syn::DeriveInput) -> Vec<syn::Attribute> {
+    match t {
+        Trait::FromMeta | Trait::FromDeriveInput | Trait::FromAttributes => di.attrs.clone(),
+        Trait::FromField => match &di.data {
+            syn::Data::Struct(s) => s.fields.iter().next().map(|f| f.attrs.clone()).unwrap_or_default(),
+            _ => vec![],
+        },
+        Trait::FromVariant => match &di.data {
+            syn::Data::Enum(e) => e.variants.iter().next().map(|v| v.attrs.clone()).unwrap_or_default(),
+            _ => vec![],
+        },
+        Trait::FromTypeParam => di.generics.type_params().next().map(|t| t.attrs.clone()).unwrap_or_default(),
+    }
+}
+
+fn path_is(p: &syn::Path, name: &str) -> bool {
+    match syn::parse_str::<syn::Path>(name) {
+        Ok(q) => *p == q,
+        Err(_) => false,
+    }
+}
+
+/// What the `attrs` member must hold for this source (token text, in source order).
+fn expected_forwarded(s: &StructDecl, src: &str) -> Option<Vec<Val>> {
+    let di: syn::DeriveInput = syn::parse_str(src).ok()?;
+    let attrs = element_attrs(s.tr8, &di);
+    let consumed = |a: &syn::Attribute| s.attrs.iter().any(|n| path_is(a.path(), n));
+    let v: Vec<Val> = attrs
+        .iter()
+        .filter(|a| match &s.fwd {
+            Fwd::Absent => false,
+            Fwd::All => !consumed(a),
+            Fwd::Only(list) => !consumed(a) && list.iter().any(|n| path_is(a.path(), n)),
+        })
+        .map(|a| Val::Tok(quote::ToTokens::to_token_stream(a).to_string()))
+        .collect();
+    Some(v)
+}
+
+fn split_attrs_val(v: &Val) -> (Option<Val>, Val) {
+    match v {
+        Val::Rec(fields) => {
+            let attrs = fields.iter().find(|(n, _)| n == "attrs").map(|(_, v)| v.clone());
+            let rest: Vec<(String, Val)> = fields.iter().filter(|(n, _)| n != "attrs").cloned().collect();
+            (attrs, Val::Rec(rest))
+        }
+        other => (None, other.clone()),
+    }
+}
+
+/// Observable outcome with positions removed (columns shift between partitions).
+fn outcome_key(o: &Obs) -> String {
+    match o {
+        Obs::Ok(v) => format!("Ok {:?}", split_attrs_val(v).1),
+        Obs::Err { leaves, len, .. } => format!("Err len={len} {:?}", leaves.iter().map(|l| l.display.clone()).collect::<Vec<_>>()),
+        Obs::Panic(p) => format!("Panic {p}"),
+        Obs::NoParse(e) => format!("NoParse {e}"),
+    }
+}
+
+fn explore_attrs(idx: usize, e: &Entry, first: Option<usize>, thorough: bool, t: &mut Tally) {
+    let s = e.prog.st(e.prog.root);
+    let (prefix, suffix) = element_wrapper(s.tr8);
+    let alpha = corpus::attr_alphabet();
+    let foreign = corpus::foreign_attrs();
+    let names: Vec<String> = s.attrs.clone();
+    let maxlen = if thorough { 4 } else { 3 };
+    let a = alpha.len();
+    let check = |attrs: &[String], base_key: &str, what: &str, items: &[Item], t: &mut Tally| {
+        let src = format!("{prefix}{} {suffix}", attrs.join(" "));
+        let obs = (e.run)(&src);
+        t.evaluations += 1;
+        t.traces += 1;
+        t.transitions += 1;
+        let mut complaints: Vec<String> = vec![];
+        let key = outcome_key(&obs);
+        if key != base_key {
+            complaints.push(format!("{what}: outcome {key} differs from the single-attribute outcome {base_key}"));
+        }
+        if let Obs::Ok(v) = &obs {
+            let (got, _) = split_attrs_val(v);
+            let want = expected_forwarded(s, &src);
+            match (&s.fwd, got, want) {
+                (Fwd::Absent, _, _) => {}
+                (_, Some(Val::List(g)), Some(w)) => {
+                    t.hit("forwarding_checked");
+                    if !w.is_empty() {
+                        t.hit("forwarding_nonempty");
+                    }
+                    if g != w {
+                        complaints.push(format!("forwarded attrs {g:?}, expected {w:?}"));
+                    }
+                }
+                (_, g, w) => complaints.push(format!("machinery: attrs member {g:?} / expectation {w:?}")),
+            }
+        }
+        for c in complaints {
+            t.violate(Violation {
+                key: format!("C08 family=[{}] src=`{src}` :: {c}", e.prog.family),
+                what: format!("[{}] `{src}`: {c}", e.prog.family),
+                case: json!({"engine": "corpus-attrs", "program": idx, "src": src, "items": items}),
+                detail: json!({"observed": format!("{obs:?}")}),
+            });
+        }
+    };
+    let lens: Vec<usize> = if first.is_none() { vec![0] } else { (1..=maxlen).collect() };
+    for len in lens {
+        let mut seq = vec![0usize; len];
+        if let Some(f) = first {
+            seq[0] = f;
+        }
+        loop {
+            let items: Vec<Item> = seq.iter().map(|i| alpha[*i].clone()).collect();
+            let texts: Vec<String> = items.iter().map(|it| vmodel::input::items_text(std::slice::from_ref(it))).collect();
+            // baseline: one attribute holding everything
+            let base_src = format!("{prefix}#[{}({})] {suffix}", names[0], texts.join(", "));
+            let base = (e.run)(&base_src);
+            let base_key = outcome_key(&base);
+            t.states += 1;
+            t.evaluations += 1;
+            match &base {
+                Obs::Ok(_) => t.hit("baseline_ok"),
+                Obs::Err { .. } => {
+                    t.hit("baseline_err");
+                    t.nontrivial += 1;
+                }
+                Obs::Panic(p) => t.violate(Violation {
+                    key: format!("C08 family=[{}] src=`{base_src}` :: panicked: {p}", e.prog.family),
+                    what: format!("[{}] `{base_src}`: panicked: {p}", e.prog.family),
+                    case: json!({"engine": "corpus-attrs", "program": idx, "src": base_src, "items": items}),
+                    detail: json!({}),
+                }),
+                Obs::NoParse(_) => t.hit("generator_unparseable"),
+            }
+            // every partition into consecutive blocks x every assignment of declared names
+            let n = len;
+            let cuts = if n == 0 { 1 } else { 1usize << (n - 1) };
+            for mask in 0..cuts {
+                let mut blocks: Vec<Vec<String>> = vec![vec![]];
+                for (i, tx) in texts.iter().enumerate() {
+                    if i > 0 && (mask >> (i - 1)) & 1 == 1 {
+                        blocks.push(vec![]);
+                    }
+                    blocks.last_mut().unwrap().push(tx.clone());
+                }
+                let nb = blocks.len();
+                let assignments = names.len().pow(nb as u32);
+                for asg in 0..assignments {
+                    let mut x = asg;
+                    let attrs: Vec<String> = blocks
+                        .iter()
+                        .map(|b| {
+                            let nm = &names[x % names.len()];
+                            x /= names.len();
+                            format!("#[{nm}({})]", b.join(", "))
+                        })
+                        .collect();
+                    if n == 0 && asg > 0 {
+                        continue;
+                    }
+                    check(&attrs, &base_key, "split", &items, t);
+                    // foreign attributes interleaved: every position x every foreign attribute
+                    let full = mask + 1 == cuts || mask == 0;
+                    if (thorough || asg == 0) && full {
+                        for pos in 0..=attrs.len() {
+                            for f in &foreign {
+                                let mut with = attrs.clone();
+                                with.insert(pos, f.to_string());
+                                check(&with, &base_key, "foreign attribute interleaved", &items, t);
+                                if thorough && mask == 0 && asg == 0 {
+                                    for g in &foreign {
+                                        let mut two = with.clone();
+                                        two.push(g.to_string());
+                                        check(&two, &base_key, "two foreign attributes", &items, t);
+                                    }
+                                }
+                            }
+                        }
+                    }
+                }
+            }
+            // next sequence (position 0 is fixed by the shard)
+            let mut k = len;
+            let mut done = false;
+            loop {
+                if k <= 1 {
+                    done = true;
+                    break;
+                }
+                k -= 1;
+                seq[k] += 1;
+                if seq[k] < a {
+                    break;
+                }
+                seq[k] = 0;
+            }
+            if done {
+                break;
+            }
+        }
+    }
+}
+
 /// Sequence length bound for a program: chosen so that the sequence tree stays below `budget`.
 pub fn seq_bound(alpha: usize, want: usize, budget: u64) -> usize {
     let mut l = want;
@@ -357,6 +562,14 @@ pub fn main(entries: Vec<Entry>) {
         let v: serde_json::Value = serde_json::from_str(&txt).unwrap();
         let c = &v["case"];
         let idx = c["program"].as_u64().unwrap() as usize;
+        if c["engine"] == "corpus-attrs" {
+            let src = c["src"].as_str().unwrap();
+            let obs = (entries[idx].run)(src);
+            let s = entries[idx].prog.st(entries[idx].prog.root);
+            println!("replay program {idx} [{}]\n  src: {src}\n  observed: {obs:?}\n  expected forwarded: {:?}", entries[idx].prog.family, expected_forwarded(s, src));
+            println!("  (compare with the single-attribute spelling of the same items; exit status reflects only panics)");
+            std::process::exit(if matches!(obs, Obs::Panic(_)) { 1 } else { 0 });
+        }
         if c["engine"] == "corpus-hostile" {
             let src = c["src"].as_str().unwrap();
             let obs = (entries[idx].run)(src);
@@ -394,7 +607,7 @@ pub fn main(entries: Vec<Entry>) {
         .iter()
         .enumerate()
         .flat_map(|(i, e)| {
-            let a = if matches!(e.prog.decls[e.prog.root], Decl::Enum(_)) { 0 } else { corpus::root_alphabet(&e.prog).len() };
+            let a = if prop == "C08" { corpus::attr_alphabet().len() } else if matches!(e.prog.decls[e.prog.root], Decl::Enum(_)) { 0 } else { corpus::root_alphabet(&e.prog).len() };
             std::iter::once((i, None)).chain((0..a).map(move |f| (i, Some(f))))
         })
         .collect();
@@ -403,6 +616,13 @@ pub fn main(entries: Vec<Entry>) {
         .map(|(i, first)| {
             let e = &entries[*i];
             let mut t = Tally::default();
+            if prop == "C08" {
+                explore_attrs(*i, e, *first, thorough, &mut t);
+                if first.is_none() {
+                    t.hit("programs");
+                }
+                return t;
+            }
             if matches!(e.prog.decls[e.prog.root], Decl::Enum(_)) {
                 explore_enum(&prop, *i, e, if thorough { 3 } else { 2 }, &mut t);
                 t.hit("programs");
